@@ -208,6 +208,7 @@ func samRecordPool() []samRec {
 }
 
 func runC03(r *core.Run) {
+	firstCallClause(r, "sam.")
 	texts := samTextMenu()
 	qnames := []string{}
 	for _, t := range texts {
